@@ -144,10 +144,11 @@ class PortModel(object):
             v = s2.canon(val.t)
             b = mk_byte(v, 0)
             dn = s2.dom(nt)
-            if dn.const() is not None and dn.const() <= 4096:
+            whole = s2.canon(off) == ZERO and s2.prove_le(o.size, nt) and not o.weak
+            if dn.const() is not None and dn.const() <= 4096 and not (whole and dn.const() > 64):
                 cnt = int(dn.const())
                 I.raw_store(s2, oid, off, cnt, [b] * cnt)
-            elif s2.canon(off) == ZERO and s2.prove_le(o.size, nt) and not o.weak:
+            elif whole:
                 o.cells.clear()
                 if isinstance(o.ptr_fields, dict):
                     o.ptr_fields = None
